@@ -10,7 +10,7 @@ use super::*;
 use crate::arena::verif_bump as bk;
 include!("tier.rs");
 
-pub(crate) const PS_COUNT: u32 = 2; // slots per class in the hand-laid-out set
+pub(crate) const PS_COUNT: u32 = 2; // slots per class in the hand-laid-out set (the thorough tier deepens the Pool-level harnesses: 6 slots)
 
 /// Lays out all 20 pools over one buffer, `PS_COUNT` slots each (PoolSet::new with production counts needs
 /// 1.3 MiB and 40 allocator calls, which CBMC does not finish). Class `c` gets the given (bump, free list) state,
